@@ -33,6 +33,9 @@ claimed = {
  'C09': dict(text="Unbounded deductive proof of the member store/read contracts: SetMember changes exactly the addressed location (negative indices, padding with pairwise distinct fresh nulls, old cells kept, 1Mi fill limit, object key set grows by exactly the key) and nothing else (frame); GetMember modifies nothing at all (reads never change the document) and returns the live cell / a detached null; copyValue writes only the target cell; compound assignment desugars to the same target node twice.",
              note=TB + "; aliasing of array values through copied slice headers (DESIGN.md section 6, D7b) is outside these contracts." + L,
              design="4 C09"),
+ 'C10': dict(text="Determinism is obtained from functional contracts under a nondeterministic map-iteration semantics (range over a map is modelled as an arbitrary order): the places that iterate objects (print rendering, for-in, JSON conversion) are proved to visit keys in sorted order, and three structural obligations decided on the SSA of the current tree: package state of package lang is written only by the four lazy prototype initialisers, maps are ranged over only in the six functions whose contracts make the order unobservable, and package lang starts no goroutine and calls nothing in time, math/rand, os, runtime, reflect, unsafe, sync.",
+             note=TB + "; 'in a fresh process' is outside the logic; that the prototype singletons are initialised idempotently is trusted (trusted contracts getXPrototype); since fix db6d889 member lookups hand out copies of prototype cells, so programs cannot write into them (GetMember modifies nothing is proved).",
+             design="4 C10"),
  'C11': dict(text="Unbounded deductive proof with a ghost fault latch: every fault creation sets the latch, every evaluator function and helper requires it clear and ensures it is set exactly when a fault is returned, and every output primitive requires it clear -- so an error dropped in any syntactic position, or output after a fault, fails an obligation. Syntax part: Parse produces no output and EvalProgram returns its error before any evaluation; static rejections (break/continue/return context, assignment targets) are postconditions of the parser.",
              note=TB + "; errors that the code ignores by design without creating a fault value (strconv.ParseFloat in coercions) do not set the latch.",
              design="4 C11"),
@@ -62,7 +65,6 @@ claimed = {
              design="4 C20"),
 }
 na = {
- 'C10': "not claimed yet: structural write-set / nondeterminism-source obligations not built (sorted-key obligations are part of C17/C07)",
  'C14': "cli.Run is not under contract (flag/os/isatty models not built); its equivalence clauses (-f vs inline, stdin vs file, -r vs BEGINFILE) are relations between two runs and not expressible as a contract (DESIGN.md 7)",
 }
 hook_commits = subprocess.run("git -C /repo log --format=%H --grep='^verif:'", shell=True, capture_output=True, text=True).stdout.split()
